@@ -270,7 +270,7 @@ fn random_io_plan(cx: &mut Cx) -> BTreeMap<usize, Fault> {
     let mut plan = BTreeMap::new();
     if cx.tape.chance(1, 4) {
         let f = match cx.tape.draw(5) {
-            0 => (1usize, Fault::MetaSize(cx.tape.draw(4) as u8)),
+            0 => (1usize, Fault::MetaSize(cx.tape.draw(5) as u8)),
             1 => (2 + cx.tape.draw(3) as usize, Fault::ReadShort(1 + cx.tape.draw(8) as usize)),
             2 => (2 + cx.tape.draw(3) as usize, Fault::ReadEintr),
             3 => (2 + cx.tape.draw(3) as usize, Fault::ReadEio),
